@@ -61,6 +61,25 @@ theorem numEnd_of_delim (rest : Bytes) (h : delimStart rest = true) : numEnd res
   | cons c r =>
     rcases delimStart_cons c r h with rfl | rfl | rfl <;> rfl
 
+theorem numFrac_end (rest : Bytes) (hr : numEnd rest = true) : Json.numFrac rest = some ([], rest) := by
+  cases rest with
+  | nil => rfl
+  | cons c r =>
+    simp only [numEnd, Bool.and_eq_true, Bool.not_eq_eq_eq_not, Bool.not_true, bne_iff_ne] at hr
+    unfold Json.numFrac
+    split
+    · next r2 heq => simp only [List.cons.injEq] at heq; exact absurd heq.1 hr.1.1.2
+    · rfl
+
+theorem numExp_end (rest : Bytes) (hr : numEnd rest = true) : Json.numExp rest = some ([], rest) := by
+  cases rest with
+  | nil => rfl
+  | cons c r =>
+    simp only [numEnd, Bool.and_eq_true, Bool.not_eq_eq_eq_not, Bool.not_true, bne_iff_ne] at hr
+    have e101 : (c == 101) = false := by simpa using hr.1.2
+    have e69 : (c == 69) = false := by simpa using hr.2
+    simp [Json.numExp, e101, e69]
+
 theorem parseNumber_digits (sign ds rest : Bytes) (hs : sign = [] ∨ sign = [45])
     (hds : ∀ c ∈ ds, Json.isDigit c = true) (hne : ds ≠ [])
     (hz : ∀ c cs, ds = c :: cs → c = 48 → cs = []) (hr : numEnd rest = true) :
@@ -75,62 +94,23 @@ theorem parseNumber_digits (sign ds rest : Bytes) (hs : sign = [] ∨ sign = [45
     have hdd : Json.isDigit d = true := hds d (by simp)
     have hd45 : d ≠ 45 := by
       intro h; subst h; simp [Json.isDigit] at hdd
-    have e45 : (d == 45) = false := by simpa using hd45
     have htd := takeDigits_append (d :: dr) rest hds hrd
     simp only [List.cons_append] at htd
-    -- the sign is split off and the first digit found
-    have hsplit : parseNumber (sign ++ (d :: dr) ++ rest) =
-        (let (ip, s2) : Bytes × Bytes := if d == 48 then ([48], dr ++ rest) else Json.takeDigits (d :: (dr ++ rest))
-         let frac : Option (Bytes × Bytes) := match s2 with
-           | 46 :: r2 => let (fd, r3) := Json.takeDigits r2; if fd.isEmpty then none else some (46 :: fd, r3)
-           | r2 => some ([], r2)
-         match frac with
-         | none => none
-         | some (fp, s3) =>
-           let exp : Option (Bytes × Bytes) := match s3 with
-             | e :: r3 =>
-               if e == 101 || e == 69 then
-                 let (sg, r4) : Bytes × Bytes := match r3 with
-                   | 43 :: t => ([43], t)
-                   | 45 :: t => ([45], t)
-                   | t => ([], t)
-                 let (ed, r5) := Json.takeDigits r4
-                 if ed.isEmpty then none else some (e :: sg ++ ed, r5)
-               else some ([], e :: r3)
-             | [] => some ([], [])
-           match exp with
-           | none => none
-           | some (ep, s4) => some (sign ++ ip ++ fp ++ ep, s4)) := by
+    have hsign : Json.numSign (sign ++ (d :: dr) ++ rest) = (sign, d :: (dr ++ rest)) := by
       rcases hs with rfl | rfl
-      · simp only [List.nil_append, List.cons_append, parseNumber]
-        have : (match d :: (dr ++ rest) with | 45 :: r => (([45] : Bytes), r) | r => ([], r)) = ([], d :: (dr ++ rest)) := by
-          split
-          · next r heq => simp only [List.cons.injEq] at heq; exact absurd heq.1 hd45
-          · rfl
-        simp only [this, hdd, Bool.not_true, Bool.false_eq_true, ↓reduceIte, List.nil_append]
-      · simp only [List.cons_append, List.nil_append, parseNumber, hdd, Bool.not_true, Bool.false_eq_true, ↓reduceIte]
-    rw [hsplit]
-    have hip : (if d == 48 then (([48] : Bytes), dr ++ rest) else Json.takeDigits (d :: (dr ++ rest))) = (d :: dr, rest) := by
+      · simp only [List.nil_append, List.cons_append, Json.numSign]
+        split
+        · next r heq => simp only [List.cons.injEq] at heq; exact absurd heq.1 hd45
+        · rfl
+      · rfl
+    have hint : Json.numInt (d :: (dr ++ rest)) = some (d :: dr, rest) := by
+      simp only [Json.numInt, hdd, Bool.not_true, Bool.false_eq_true, ↓reduceIte]
       by_cases h48 : d = 48
       · have hdr : dr = [] := hz d dr rfl h48
         subst hdr; subst h48; simp
       · have e48 : (d == 48) = false := by simpa using h48
         simp only [e48, Bool.false_eq_true, ↓reduceIte, htd]
-    simp only [hip]
-    cases rest with
-    | nil => simp
-    | cons c r =>
-      simp only [numEnd, Bool.and_eq_true, Bool.not_eq_eq_eq_not, Bool.not_true, bne_iff_ne] at hr
-      obtain ⟨⟨⟨_, h46⟩, h101⟩, h69⟩ := hr
-      have e101 : (c == 101) = false := by simpa using h101
-      have e69 : (c == 69) = false := by simpa using h69
-      have hfrac : (match c :: r with
-           | 46 :: r2 => let (fd, r3) := Json.takeDigits r2; if fd.isEmpty then none else some (46 :: fd, r3)
-           | r2 => some (([] : Bytes), r2)) = some ([], c :: r) := by
-        split
-        · next r2 heq => simp only [List.cons.injEq] at heq; exact absurd heq.1 h46
-        · rfl
-      simp only [hfrac, e101, e69, Bool.or_self, Bool.false_eq_true, ↓reduceIte, List.append_nil]
+    simp only [parseNumber, hsign, hint, numFrac_end rest hr, numExp_end rest hr, List.append_nil]
 
 theorem parseNumber_formatInt (v : Int) (rest : Bytes) (hr : numEnd rest = true) :
     parseNumber (Strconv.formatInt v ++ rest) = some (Strconv.formatInt v, rest) := by
@@ -153,5 +133,406 @@ theorem parseNumber_formatInt (v : Int) (rest : Bytes) (hr : numEnd rest = true)
     simpa using this
   · have := parseNumber_digits [] _ rest (Or.inl rfl) hds hne hz hr
     simpa using this
+
+/-! ### dispatch of `parseValue` on the first byte -/
+
+theorem parseValue_number (fuel : Nat) (t rest : Bytes) (c : UInt8) (cs : Bytes) (ht : t = c :: cs)
+    (hc : Json.isDigit c = true ∨ c = 45) (h : parseNumber (t ++ rest) = some (t, rest)) :
+    parseValue (fuel + 1) (t ++ rest) = some (.num t, rest) := by
+  subst ht
+  have facts : Json.isWs c = false ∧ c ≠ 34 ∧ c ≠ 123 ∧ c ≠ 91 ∧ c ≠ 116 ∧ c ≠ 102 ∧ c ≠ 110 := by
+    rcases hc with hd | rfl
+    · simp only [Json.isDigit, Bool.and_eq_true, decide_eq_true_eq, UInt8.le_iff_toNat_le] at hd
+      refine ⟨?_, ?_, ?_, ?_, ?_, ?_, ?_⟩
+      · simp only [Json.isWs, Bool.or_eq_false_iff, beq_eq_false_iff_ne, ne_eq]
+        refine ⟨⟨⟨?_, ?_⟩, ?_⟩, ?_⟩ <;> (intro h; subst h; simp at hd)
+      all_goals (intro h; subst h; simp at hd)
+    · decide
+  obtain ⟨hws, h34, h123, h91, h116, h102, h110⟩ := facts
+  have e34 : (c == 34) = false := by simpa using h34
+  have e123 : (c == 123) = false := by simpa using h123
+  have e91 : (c == 91) = false := by simpa using h91
+  have ht : Json.litTrue.isPrefixOf (c :: (cs ++ rest)) = false := by
+    simp only [Json.litTrue, List.isPrefixOf, Bool.and_eq_false_imp, beq_iff_eq]
+    intro h; exact absurd h.symm h116
+  have hf : Json.litFalse.isPrefixOf (c :: (cs ++ rest)) = false := by
+    simp only [Json.litFalse, List.isPrefixOf, Bool.and_eq_false_imp, beq_iff_eq]
+    intro h; exact absurd h.symm h102
+  have hn : Json.litNull.isPrefixOf (c :: (cs ++ rest)) = false := by
+    simp only [Json.litNull, List.isPrefixOf, Bool.and_eq_false_imp, beq_iff_eq]
+    intro h; exact absurd h.symm h110
+  simp only [List.cons_append] at h ⊢
+  simp only [parseValue, Json.skipWs, hws, Bool.false_eq_true, ↓reduceIte, e34, e123, e91, ht, hf, hn, h,
+    Option.map_some]
+
+theorem parseValue_true (fuel : Nat) (rest : Bytes) :
+    parseValue (fuel + 1) (trueB ++ rest) = some (.bool true, rest) := by
+  simp [parseValue, trueB, Json.skipWs, Json.isWs, Json.litTrue, List.isPrefixOf]
+
+theorem parseValue_false (fuel : Nat) (rest : Bytes) :
+    parseValue (fuel + 1) (falseB ++ rest) = some (.bool false, rest) := by
+  simp [parseValue, falseB, Json.skipWs, Json.isWs, Json.litTrue, Json.litFalse, List.isPrefixOf]
+
+/-! ### bytes are always written as valid UTF-8 -/
+
+theorem validGo_latin1 : ∀ (b : Bytes) (fuel : Nat), b.length ≤ fuel → Utf8.validUtf8.go fuel (latin1 b) = true := by
+  intro b
+  induction b with
+  | nil => intro fuel _; cases fuel <;> simp [latin1, Utf8.validUtf8.go]
+  | cons c cs ih =>
+    intro fuel hf
+    cases fuel with
+    | zero => simp at hf
+    | succ f =>
+      have hl : latin1 (c :: cs) = Utf8.encodeRune c.toNat ++ latin1 cs := by simp [latin1]
+      have hpos := encodeRune_len_pos c
+      rw [hl]
+      cases hcons : Utf8.encodeRune c.toNat ++ latin1 cs with
+      | nil =>
+        have : (Utf8.encodeRune c.toNat ++ latin1 cs).length = 0 := by rw [hcons]; rfl
+        simp only [List.length_append] at this; omega
+      | cons x xs =>
+        simp only [Utf8.validUtf8.go]
+        rw [← hcons, decodeRune_latin1 c (latin1 cs)]
+        have hne : ¬ (c.toNat = Utf8.runeError) := by
+          have := c.toNat_lt; simp [Utf8.runeError]; omega
+        have hb : (c.toNat == Utf8.runeError) = false := by simpa using hne
+        simp only [hb, Bool.false_and, Bool.false_eq_true, ↓reduceIte, List.drop_left]
+        exact ih f (by simp at hf; omega)
+
+theorem valid_latin1 (b : Bytes) : Utf8.validUtf8 (latin1 b) = true := by
+  unfold Utf8.validUtf8
+  exact validGo_latin1 b _ (runesOf_latin1_le b)
+
+/-! ### whole documents -/
+
+/-- what is assumed of `strconv`'s float text so that it is one JSON number token: the strict
+number grammar accepts exactly it and stops (an assumption about `formatFloat64`'s shape, compared
+with Go's output on every float of every run) -/
+structure NumLaws : Prop where
+  float_tok : ∀ b rest, ((Strconv.decodeBits Strconv.f64 b).cls == 2) = false →
+    ((Strconv.decodeBits Strconv.f64 b).cls == 1) = false → numEnd rest = true →
+    parseNumber (Strconv.formatFloat64 b ++ rest) = some (Strconv.formatFloat64 b, rest)
+  float_head : ∀ b, ((Strconv.decodeBits Strconv.f64 b).cls == 2) = false →
+    ((Strconv.decodeBits Strconv.f64 b).cls == 1) = false →
+    ∃ c cs, Strconv.formatFloat64 b = c :: cs ∧ (Json.isDigit c = true ∨ c = 45)
+
+mutual
+/-- every string and key of the document is valid UTF-8 (byte strings are written through the
+Latin-1 mapping and need nothing) -/
+def DocTextOK : Doc → Prop
+  | .str b => Utf8.validUtf8 b = true
+  | .obj kvs => DocTextOKKvs kvs
+  | .arr xs => DocTextOKItems xs
+  | _ => True
+def DocTextOKKvs : List (Bytes × Doc) → Prop
+  | [] => True
+  | (k, v) :: rest => Utf8.validUtf8 k = true ∧ DocTextOK v ∧ DocTextOKKvs rest
+def DocTextOKItems : List Doc → Prop
+  | [] => True
+  | v :: rest => DocTextOK v ∧ DocTextOKItems rest
+end
+
+mutual
+/-- parser fuel that certainly suffices for the compact rendering -/
+def jneed : Doc → Nat
+  | .obj kvs => 1 + jneedKvs kvs
+  | .arr xs => 1 + jneedItems xs
+  | _ => 1
+def jneedKvs : List (Bytes × Doc) → Nat
+  | [] => 0
+  | (_, v) :: rest => 1 + max (jneed v) (jneedKvs rest)
+def jneedItems : List Doc → Nat
+  | [] => 0
+  | v :: rest => 1 + max (jneed v) (jneedItems rest)
+end
+
+theorem nanB_valid : Utf8.validUtf8 nanB = true := by decide
+theorem infB_valid : Utf8.validUtf8 infinityB = true := by decide
+theorem negInfB_valid : Utf8.validUtf8 (45 :: infinityB) = true := by decide
+
+theorem skipWs_delim (c : UInt8) (r : Bytes) (h : c = 44 ∨ c = 125 ∨ c = 93 ∨ c = 58 ∨ c = 34) :
+    Json.skipWs (c :: r) = c :: r := by
+  rcases h with rfl | rfl | rfl | rfl | rfl <;> rfl
+
+theorem skipWs_nonws (c : UInt8) (r : Bytes) (h : Json.isWs c = false) : Json.skipWs (c :: r) = c :: r := by
+  simp [Json.skipWs, h]
+
+/-- the first byte of a rendered value: never whitespace, never a closing bracket -/
+theorem renderJson_head (N : NumLaws) (d : Doc) (rest : Bytes) :
+    ∃ c tl, renderJson d ++ rest = c :: tl ∧ Json.isWs c = false ∧ c ≠ 93 ∧ c ≠ 125 := by
+  have digitOr45 : ∀ c : UInt8, (Json.isDigit c = true ∨ c = 45) → Json.isWs c = false ∧ c ≠ 93 ∧ c ≠ 125 := by
+    intro c hc
+    rcases hc with hd | rfl
+    · simp only [Json.isDigit, Bool.and_eq_true, decide_eq_true_eq, UInt8.le_iff_toNat_le] at hd
+      refine ⟨?_, ?_, ?_⟩
+      · simp only [Json.isWs, Bool.or_eq_false_iff, beq_eq_false_iff_ne, ne_eq]
+        refine ⟨⟨⟨?_, ?_⟩, ?_⟩, ?_⟩ <;> (intro h; subst h; simp at hd)
+      all_goals (intro h; subst h; simp at hd)
+    · decide
+  cases d with
+  | int v =>
+    have := Strconv.formatInt_clean v
+    cases hfi : Strconv.formatInt v with
+    | nil => exact absurd hfi this.1
+    | cons c cs =>
+      refine ⟨c, cs ++ rest, by simp [renderJson, hfi], digitOr45 c (this.2 c (by rw [hfi]; simp))⟩
+  | f64 b =>
+    simp only [renderJson, jsonFloat]
+    by_cases h2 : ((Strconv.decodeBits Strconv.f64 b).cls == 2) = true
+    · exact ⟨34, _, (by simp only [h2, ↓reduceIte, Json.jsonString, List.cons_append, List.append_assoc]; rfl), by decide, by decide, by decide⟩
+    · have h2' : ((Strconv.decodeBits Strconv.f64 b).cls == 2) = false := by simpa using h2
+      by_cases h1 : ((Strconv.decodeBits Strconv.f64 b).cls == 1) = true
+      · exact ⟨34, _, (by simp only [h2', h1, Bool.false_eq_true, ↓reduceIte, Json.jsonString, List.cons_append, List.append_assoc]; rfl), by decide, by decide, by decide⟩
+      · have h1' : ((Strconv.decodeBits Strconv.f64 b).cls == 1) = false := by simpa using h1
+        obtain ⟨c, cs, hc, hd⟩ := N.float_head b h2' h1'
+        exact ⟨c, cs ++ rest, by simp [h2', h1', hc], digitOr45 c hd⟩
+  | bool b =>
+    cases b
+    · exact ⟨102, _, (by simp only [renderJson, falseB, ↓reduceIte, Bool.false_eq_true, List.cons_append]; rfl), by decide, by decide, by decide⟩
+    · exact ⟨116, _, (by simp only [renderJson, trueB, ↓reduceIte, List.cons_append]; rfl), by decide, by decide, by decide⟩
+  | str b => exact ⟨34, _, (by simp only [renderJson, Json.jsonString, List.cons_append, List.append_assoc]; rfl), by decide, by decide, by decide⟩
+  | bytes b => exact ⟨34, _, (by simp only [renderJson, Json.jsonString, List.cons_append, List.append_assoc]; rfl), by decide, by decide, by decide⟩
+  | obj kvs => exact ⟨123, _, (by simp only [renderJson, List.cons_append, List.append_assoc]; rfl), by decide, by decide, by decide⟩
+  | arr xs => exact ⟨91, _, (by simp only [renderJson, List.cons_append, List.append_assoc]; rfl), by decide, by decide, by decide⟩
+
+/-- one member: the key is read, then the value, then `,` or `}` decides -/
+theorem parseMembers_member (fuel : Nat) (k : Bytes) (hk : Utf8.validUtf8 k = true) (tail : Bytes) :
+    parseMembers (fuel + 1) (Json.jsonString k ++ 58 :: tail) =
+      (match parseValue fuel tail with
+       | none => none
+       | some (v, r3) =>
+         match Json.skipWs r3 with
+         | 44 :: r4 => (parseMembers fuel r4).map (fun (kvs, r5) => ((k, v) :: kvs, r5))
+         | 125 :: r4 => some ([(k, v)], r4)
+         | _ => none) := by
+  unfold Json.jsonString
+  simp only [List.cons_append, List.append_assoc, List.nil_append, parseMembers]
+  rw [skipWs_nonws 34 _ (by decide)]
+  simp only
+  rw [Json.parse_escapeBody k.length k _ (58 :: tail) (Nat.le_refl _) (by simp; omega) hk]
+  simp only
+  rw [skipWs_nonws 58 _ (by decide)]
+  rfl
+
+mutual
+theorem parse_render (N : NumLaws) : (d : Doc) → DocTextOK d → ∀ (fuel : Nat) (rest : Bytes),
+    jneed d ≤ fuel → delimStart rest = true →
+    parseValue fuel (renderJson d ++ rest) = some (treeOf jsonEnc d, rest)
+  | .int v, _, fuel, rest, hf, hr => by
+    obtain ⟨f, rfl⟩ : ∃ f, fuel = f + 1 := ⟨fuel - 1, by simp [jneed] at hf; omega⟩
+    obtain ⟨c, cs, hc, hd⟩ : ∃ c cs, Strconv.formatInt v = c :: cs ∧ (Json.isDigit c = true ∨ c = 45) := by
+      have := Strconv.formatInt_clean v
+      cases hfi : Strconv.formatInt v with
+      | nil => exact absurd hfi this.1
+      | cons c cs => exact ⟨c, cs, rfl, this.2 c (by rw [hfi]; simp)⟩
+    simp only [renderJson, treeOf, jsonEnc, jsonTreeLeaf]
+    exact parseValue_number f _ rest c cs hc hd (parseNumber_formatInt v rest (numEnd_of_delim rest hr))
+  | .f64 b, _, fuel, rest, hf, hr => by
+    obtain ⟨f, rfl⟩ : ∃ f, fuel = f + 1 := ⟨fuel - 1, by simp [jneed] at hf; omega⟩
+    simp only [renderJson, jsonFloat, treeOf, jsonEnc, jsonTreeLeaf]
+    by_cases h2 : ((Strconv.decodeBits Strconv.f64 b).cls == 2) = true
+    · simp only [h2, ↓reduceIte]
+      exact Json.parseValue_jsonString nanB rest f nanB_valid
+    · have h2' : ((Strconv.decodeBits Strconv.f64 b).cls == 2) = false := by simpa using h2
+      simp only [h2', Bool.false_eq_true, ↓reduceIte]
+      by_cases h1 : ((Strconv.decodeBits Strconv.f64 b).cls == 1) = true
+      · simp only [h1, ↓reduceIte]
+        by_cases hn : (Strconv.decodeBits Strconv.f64 b).neg = true
+        · simp only [hn, ↓reduceIte]
+          exact Json.parseValue_jsonString _ rest f negInfB_valid
+        · simp only [hn, Bool.false_eq_true, ↓reduceIte]
+          exact Json.parseValue_jsonString _ rest f infB_valid
+      · have h1' : ((Strconv.decodeBits Strconv.f64 b).cls == 1) = false := by simpa using h1
+        simp only [h1', Bool.false_eq_true, ↓reduceIte]
+        obtain ⟨c, cs, hc, hd⟩ := N.float_head b h2' h1'
+        exact parseValue_number f _ rest c cs hc hd (N.float_tok b rest h2' h1' (numEnd_of_delim rest hr))
+  | .bool b, _, fuel, rest, hf, _ => by
+    obtain ⟨f, rfl⟩ : ∃ f, fuel = f + 1 := ⟨fuel - 1, by simp [jneed] at hf; omega⟩
+    cases b
+    · simpa [renderJson, treeOf, jsonEnc, jsonTreeLeaf] using parseValue_false f rest
+    · simpa [renderJson, treeOf, jsonEnc, jsonTreeLeaf] using parseValue_true f rest
+  | .str b, hok, fuel, rest, hf, _ => by
+    obtain ⟨f, rfl⟩ : ∃ f, fuel = f + 1 := ⟨fuel - 1, by simp [jneed] at hf; omega⟩
+    simp only [DocTextOK] at hok
+    simpa [renderJson, treeOf, jsonEnc, jsonTreeLeaf] using Json.parseValue_jsonString b rest f hok
+  | .bytes b, _, fuel, rest, hf, _ => by
+    obtain ⟨f, rfl⟩ : ∃ f, fuel = f + 1 := ⟨fuel - 1, by simp [jneed] at hf; omega⟩
+    simpa [renderJson, treeOf, jsonEnc, jsonTreeLeaf] using Json.parseValue_jsonString (latin1 b) rest f (valid_latin1 b)
+  | .obj kvs, hok, fuel, rest, hf, _ => by
+    obtain ⟨f, rfl⟩ : ∃ f, fuel = f + 1 := ⟨fuel - 1, by simp [jneed] at hf; omega⟩
+    simp only [DocTextOK] at hok
+    simp only [jneed] at hf
+    simp only [renderJson, List.cons_append, List.append_assoc, treeOf]
+    cases kvs with
+    | nil =>
+      simp [renderJsonKvs, treeOfKvs, parseValue, Json.skipWs, Json.isWs]
+    | cons kv more =>
+      have := parse_renderKvs N (kv :: more) (by simp) hok f rest (by omega)
+      obtain ⟨k, v⟩ := kv
+      have hstart : ∃ tl, renderJsonKvs ((k, v) :: more) ++ ([125] ++ rest) = 34 :: tl := by
+        cases more <;> simp [renderJsonKvs, Json.jsonString]
+      obtain ⟨tl, htl⟩ := hstart
+      simp only [List.singleton_append] at htl this
+      simp only [parseValue, Json.skipWs, Json.isWs, show ((123 : UInt8) == 32) = false from rfl,
+        show ((123 : UInt8) == 9) = false from rfl, show ((123 : UInt8) == 10) = false from rfl,
+        show ((123 : UInt8) == 13) = false from rfl, Bool.or_self, Bool.false_eq_true, ↓reduceIte,
+        show ((123 : UInt8) == 34) = false from rfl, beq_self_eq_true, List.singleton_append, List.nil_append]
+      rw [htl] at this ⊢
+      simp only [Json.skipWs, Json.isWs, show ((34 : UInt8) == 32) = false from rfl,
+        show ((34 : UInt8) == 9) = false from rfl, show ((34 : UInt8) == 10) = false from rfl,
+        show ((34 : UInt8) == 13) = false from rfl, Bool.or_self, Bool.false_eq_true, ↓reduceIte]
+      split
+      · next r heq => simp at heq
+      · rw [this]; rfl
+  | .arr xs, hok, fuel, rest, hf, _ => by
+    obtain ⟨f, rfl⟩ : ∃ f, fuel = f + 1 := ⟨fuel - 1, by simp [jneed] at hf; omega⟩
+    simp only [DocTextOK] at hok
+    simp only [jneed] at hf
+    simp only [renderJson, List.cons_append, List.append_assoc, treeOf]
+    cases xs with
+    | nil =>
+      simp [renderJsonItems, treeOfItems, parseValue, Json.skipWs, Json.isWs]
+    | cons x more =>
+      have := parse_renderItems N (x :: more) (by simp) hok f rest (by omega)
+      obtain ⟨c, tl, htl, hws, h93, _⟩ : ∃ c tl, renderJsonItems (x :: more) ++ 93 :: rest = c :: tl ∧
+          Json.isWs c = false ∧ c ≠ 93 ∧ c ≠ 125 := by
+        cases more with
+        | nil =>
+          obtain ⟨c, tl, h, hh⟩ := renderJson_head N x (93 :: rest)
+          exact ⟨c, tl, by simpa [renderJsonItems] using h, hh⟩
+        | cons y ys =>
+          obtain ⟨c, tl, h, hh⟩ := renderJson_head N x (44 :: renderJsonItems (y :: ys) ++ 93 :: rest)
+          exact ⟨c, tl, by simpa [renderJsonItems] using h, hh⟩
+      simp only [parseValue, Json.skipWs, Json.isWs, show ((91 : UInt8) == 32) = false from rfl,
+        show ((91 : UInt8) == 9) = false from rfl, show ((91 : UInt8) == 10) = false from rfl,
+        show ((91 : UInt8) == 13) = false from rfl, Bool.or_self, Bool.false_eq_true, ↓reduceIte,
+        show ((91 : UInt8) == 34) = false from rfl, show ((91 : UInt8) == 123) = false from rfl,
+        beq_self_eq_true, List.singleton_append, List.nil_append]
+      rw [htl] at this ⊢
+      rw [skipWs_nonws c tl hws]
+      split
+      · next r heq => simp only [List.cons.injEq] at heq; exact absurd heq.1 h93
+      · rw [this]; rfl
+theorem parse_renderKvs (N : NumLaws) : (kvs : List (Bytes × Doc)) → kvs ≠ [] → DocTextOKKvs kvs →
+    ∀ (fuel : Nat) (rest : Bytes), jneedKvs kvs ≤ fuel →
+    parseMembers fuel (renderJsonKvs kvs ++ 125 :: rest) = some (treeOfKvs jsonEnc kvs, rest)
+  | [], h, _, _, _, _ => absurd rfl h
+  | [(k, v)], _, hok, fuel, rest, hf => by
+    obtain ⟨f, rfl⟩ : ∃ f, fuel = f + 1 := ⟨fuel - 1, by simp [jneedKvs] at hf; omega⟩
+    simp only [DocTextOKKvs] at hok
+    simp only [jneedKvs] at hf
+    have hv := parse_render N v hok.2.1 f (125 :: rest) (by omega) rfl
+    simp only [renderJsonKvs, List.append_assoc, List.cons_append]
+    rw [parseMembers_member f k hok.1, hv]
+    simp only [skipWs_nonws 125 rest (by decide), treeOfKvs, jsonEnc]
+    rfl
+  | (k, v) :: kv2 :: more, _, hok, fuel, rest, hf => by
+    obtain ⟨f, rfl⟩ : ∃ f, fuel = f + 1 := ⟨fuel - 1, by simp [jneedKvs] at hf; omega⟩
+    simp only [DocTextOKKvs] at hok
+    have hf' : 1 + max (jneed v) (jneedKvs (kv2 :: more)) ≤ f + 1 := by simpa [jneedKvs] using hf
+    have hv := parse_render N v hok.2.1 f (44 :: renderJsonKvs (kv2 :: more) ++ 125 :: rest) (by omega) rfl
+    have ih := parse_renderKvs N (kv2 :: more) (by simp) (by
+      obtain ⟨k2, v2⟩ := kv2
+      simpa [DocTextOKKvs] using hok.2.2) f rest (by omega)
+    obtain ⟨k2, v2⟩ := kv2
+    simp only [renderJsonKvs, List.append_assoc, List.cons_append] at hv ih ⊢
+    rw [parseMembers_member f k hok.1, hv]
+    simp only [skipWs_nonws 44 _ (by decide)]
+    rw [ih]
+    simp [treeOfKvs, jsonEnc]
+theorem parse_renderItems (N : NumLaws) : (xs : List Doc) → xs ≠ [] → DocTextOKItems xs →
+    ∀ (fuel : Nat) (rest : Bytes), jneedItems xs ≤ fuel →
+    parseElements fuel (renderJsonItems xs ++ 93 :: rest) = some (treeOfItems jsonEnc xs, rest)
+  | [], h, _, _, _, _ => absurd rfl h
+  | [v], _, hok, fuel, rest, hf => by
+    obtain ⟨f, rfl⟩ : ∃ f, fuel = f + 1 := ⟨fuel - 1, by simp [jneedItems] at hf; omega⟩
+    simp only [DocTextOKItems] at hok
+    simp only [jneedItems] at hf
+    have hv := parse_render N v hok.1 f (93 :: rest) (by omega) rfl
+    simp only [renderJsonItems, parseElements, hv, skipWs_nonws 93 rest (by decide), treeOfItems]
+  | v :: v2 :: more, _, hok, fuel, rest, hf => by
+    obtain ⟨f, rfl⟩ : ∃ f, fuel = f + 1 := ⟨fuel - 1, by simp [jneedItems] at hf; omega⟩
+    simp only [DocTextOKItems] at hok
+    have hf' : 1 + max (jneed v) (jneedItems (v2 :: more)) ≤ f + 1 := by simpa [jneedItems] using hf
+    have hv := parse_render N v hok.1 f (44 :: renderJsonItems (v2 :: more) ++ 93 :: rest) (by omega) rfl
+    have ih := parse_renderItems N (v2 :: more) (by simp) (by simpa [DocTextOKItems] using hok.2) f rest (by omega)
+    simp only [renderJsonItems, List.append_assoc, List.cons_append] at hv ih ⊢
+    simp only [parseElements, hv, skipWs_nonws 44 _ (by decide), ih, Option.map_some, treeOfItems]
+end
+
+/-! ### the parser's fuel suffices, and the top-level statement -/
+
+theorem renderJson_len_pos (N : NumLaws) (d : Doc) : 1 ≤ (renderJson d).length := by
+  obtain ⟨c, tl, h, _⟩ := renderJson_head N d []
+  simp only [List.append_nil] at h
+  rw [h]; simp
+
+mutual
+theorem jneed_le (N : NumLaws) : (d : Doc) → jneed d ≤ (renderJson d).length
+  | .int v => by simpa [jneed] using renderJson_len_pos N (.int v)
+  | .f64 b => by simpa [jneed] using renderJson_len_pos N (.f64 b)
+  | .bool b => by simpa [jneed] using renderJson_len_pos N (.bool b)
+  | .str b => by simpa [jneed] using renderJson_len_pos N (.str b)
+  | .bytes b => by simpa [jneed] using renderJson_len_pos N (.bytes b)
+  | .obj kvs => by
+    have := jneedKvs_le N kvs
+    simp only [jneed, renderJson, List.length_cons, List.length_append, List.length_nil]
+    omega
+  | .arr xs => by
+    have := jneedItems_le N xs
+    simp only [jneed, renderJson, List.length_cons, List.length_append, List.length_nil]
+    omega
+theorem jneedKvs_le (N : NumLaws) : (kvs : List (Bytes × Doc)) → jneedKvs kvs ≤ (renderJsonKvs kvs).length + 1
+  | [] => by simp [jneedKvs]
+  | [(k, v)] => by
+    have := jneed_le N v
+    simp only [jneedKvs, renderJsonKvs, List.length_append, List.length_cons]
+    omega
+  | (k, v) :: kv2 :: more => by
+    have h1 := jneed_le N v
+    have h2 := jneedKvs_le N (kv2 :: more)
+    simp only [jneedKvs, renderJsonKvs, List.length_append, List.length_cons] at h2 ⊢
+    omega
+theorem jneedItems_le (N : NumLaws) : (xs : List Doc) → jneedItems xs ≤ (renderJsonItems xs).length + 1
+  | [] => by simp [jneedItems]
+  | [v] => by
+    have := jneed_le N v
+    simp only [jneedItems, renderJsonItems]
+    omega
+  | v :: v2 :: more => by
+    have h1 := jneed_le N v
+    have h2 := jneedItems_le N (v2 :: more)
+    simp only [jneedItems, renderJsonItems, List.length_append, List.length_cons] at h2 ⊢
+    omega
+end
+
+/-- **the compact JSON writer's output parses, under the strict RFC 8259 parser, to exactly the
+document tree** the tree-level round trip (`json_roundtrip_tree`) is stated about — for every
+document whose strings and keys are valid UTF-8 -/
+theorem parse_renderJson (N : NumLaws) (d : Doc) (hok : DocTextOK d) :
+    Json.parse (renderJson d) = some (treeOf jsonEnc d) := by
+  unfold Json.parse
+  have h := parse_render N d hok ((renderJson d).length + 1) [] (by have := jneed_le N d; omega) rfl
+  simp only [List.append_nil] at h
+  rw [h]
+  rfl
+
+/-- **JSON round trip at byte level** (compact writer) for every value whose encoding is an object:
+`UnmarshalJSON(MarshalJSON(v)) = norm v`, nothing reported missing -/
+theorem json_roundtrip_obj (env : Env) (F : FloatLaws) (C : ConvLaws) (N : NumLaws) (S : SchemaOK env)
+    (ign f : Nat) (ty : Ty) (v : Value) (kvs : List (Bytes × Doc)) (hv : ValOK v)
+    (henc : encode (jsonCtx env F C S).cfg f [] ty v = .ok (.obj kvs)) (htext : DocTextOK (.obj kvs)) :
+    unmarshalJson { env := env, tracker := { excl := .empty, ignore := ign } } ty (renderJson (.obj kvs)) =
+      some (.ok (norm env f ty v) []) := by
+  have htree := json_roundtrip_tree env F C S ign f [] [] true ty v _ hv henc
+  have hparse := parse_renderJson N (.obj kvs) htext
+  unfold unmarshalJson
+  have hne : (renderJson (.obj kvs)).isEmpty = false := by simp [renderJson]
+  have hnn : (renderJson (.obj kvs) == nullLit) = false := by
+    simp only [renderJson, nullLit]
+    apply beq_eq_false_iff_ne.mpr
+    intro h; simp at h
+  simp only [hne, hnn, Bool.or_self, Bool.false_eq_true, ↓reduceIte, hparse, htree]
 
 end Restli.Codec
